@@ -5,6 +5,8 @@ package loader
 
 import (
 	"fmt"
+	"net/http"
+	"net/http/httptest"
 	"strings"
 	"sync"
 	"time"
@@ -78,3 +80,13 @@ func (e *eng) result(level string, evals, nontrivial int, rule string, extra map
 }
 
 func yq(s string) string { return fmt.Sprintf("%q", s) }
+
+// loopbackServer starts an HTTP server on the loopback interface (nil when none can be had).
+func loopbackServer(h http.Handler) (srv *httptest.Server) {
+	defer func() {
+		if recover() != nil {
+			srv = nil
+		}
+	}()
+	return httptest.NewServer(h)
+}
